@@ -143,6 +143,10 @@ def cleanup_context(case):
         if e["i"] + e.get("n", 0) != len(blk["items"]):
             continue
         lines = e["p"]["lines"]
+        for k, ln in enumerate(lines):
+            if "sec" in ln:       # what follows goes to another section
+                lines = lines[:k]
+                break
         instrs = [ln for ln in lines if "k" in ln and ln["k"] != "bytes"]
         if not instrs:
             continue
@@ -308,6 +312,9 @@ def check_symbols(run, lst, ob):
     for si, ii, t in lst.all_tokens():
         if t.t == "L":
             label_toks[t.name] = t
+    for blob in lst.other:
+        for nme, off, t in blob["labels"]:
+            label_toks[nme] = t
     proxies_seen = {}
     for name, exp in labels.items():
         got = ob.symbols.get(name)
@@ -345,6 +352,33 @@ def check_symbols(run, lst, ob):
                          "msg": f"{name}: {got}"})
             continue
         got = got[0]
+        if exp[0] == "other":
+            # label a patch defined in another section: it must stand in a
+            # NEW interval of that section, in front of the bytes that
+            # followed it in the patch
+            ctr["other_section_labels_compared"] = ctr.get(
+                "other_section_labels_compared", 0) + 1
+            _, blob, off = lst.other_label(name)
+            want = bytes(blob["data"][off:])
+            ok = got[0] == "pos" and ob.sec_names[got[1]] == exp[1]
+            where_iv = None
+            if ok:
+                where_iv = (got[3] is not None, got[3] or b"")
+            if not ok or where_iv is None:
+                viol.append({"key": "symbol-moved:other-section:" + (
+                    got[0] if got[0] != "pos" else "wrong-section"),
+                    "msg": f"{name}: expected in {exp[1]}, got {got[:3]}"})
+            elif not where_iv[0]:
+                viol.append({"key": "symbol-moved:other-section:"
+                                    "inside-original-interval",
+                             "msg": f"{name}: {got[:3]}"})
+            elif where_iv[1][:len(want)] != want or \
+                    len(where_iv[1]) != len(want):
+                viol.append({"key": "symbol-moved:other-section:"
+                                    "not-in-front-of-its-data",
+                             "msg": f"{name}: {where_iv[1].hex()} != "
+                                    f"{want.hex()}"})
+            continue
         if exp[0] == "pos":
             ctr["labels_compared"] += 1
             if got[0] == "pos" and (got[1], got[2]) == (exp[1], exp[2]):
@@ -1029,7 +1063,8 @@ def label_tok(lst, name):
     for si, ii, t in lst.all_tokens():
         if t.t == "L" and t.name == name:
             return t
-    return None
+    o = lst.other_label(name)
+    return o[0] if o else None
 
 
 # ------------------------------------------------------------------ C06
